@@ -12,10 +12,44 @@ use std::cmp::Ordering;
 use std::collections::hash_map::DefaultHasher;
 use std::hash::{Hash, Hasher};
 
-fn h<T: Hash>(x: &T) -> u64 {
+/// FNV-1a over the byte stream: insensitive to how the bytes are chunked into
+/// `write` calls, and with no per-process key.
+struct Fnv(u64);
+impl Hasher for Fnv {
+    fn write(&mut self, bytes: &[u8]) {
+        for &b in bytes {
+            self.0 = (self.0 ^ u64::from(b)).wrapping_mul(0x0000_0100_0000_01b3);
+        }
+    }
+    fn finish(&self) -> u64 {
+        self.0
+    }
+}
+
+/// A hasher that also mixes in where each `write` call begins and ends: a
+/// legitimate `Hasher` (the contract `a == b => hash(a) == hash(b)` is stated
+/// for every hasher), so equal digraphs have to feed it the same calls.
+struct Chunked(u64);
+impl Hasher for Chunked {
+    fn write(&mut self, bytes: &[u8]) {
+        self.0 = self.0.rotate_left(7) ^ 0x9e37_79b9_7f4a_7c15 ^ bytes.len() as u64;
+        for &b in bytes {
+            self.0 = (self.0.rotate_left(5) ^ u64::from(b)).wrapping_mul(0x2545_f491_4f6c_dd1d);
+        }
+    }
+    fn finish(&self) -> u64 {
+        self.0
+    }
+}
+
+fn h<T: Hash>(x: &T) -> [u64; 3] {
     let mut s = DefaultHasher::new();
     x.hash(&mut s);
-    s.finish()
+    let mut f = Fnv(0xcbf2_9ce4_8422_2325);
+    x.hash(&mut f);
+    let mut c = Chunked(1);
+    x.hash(&mut c);
+    [s.finish(), f.finish(), c.finish()]
 }
 
 fn same<T: Eq + Ord + Hash>(o: &mut CaseOut, a: &T, b: &T, what: &str) {
